@@ -74,22 +74,38 @@ class Runner(object):
             # this charset cannot carry the description at all: no file, nothing to fail
             self.all_diffs = {}
             return ({}, None, b"") if want_db else {}
-        db, problems = c15_lib.load(self.cm, fmt, data, opts)
+        dbs, problems = c15_lib.load_all(self.cm, fmt, data, opts)
         self.loads += 1
         out = {}
         self.all_diffs = {}       # every differing leaf of the last rendering, per class
+        views = netdesc.bus_views(desc, fmt)
+        multi = len(views) > 1
+        db = None
+        if dbs is not None:
+            if not multi:
+                if len(dbs) != 1:
+                    problems.append("reader returned %d matrices for one bus" % len(dbs))
+                db = [list(dbs.values())[0]]
+            elif sorted(dbs) != sorted(n for n, _ in views):
+                problems.append("buses: file describes %s, reader returned %s" % (sorted(n for n, _ in views), sorted(dbs)))
+            else:
+                db = [dbs[n] for n, _ in views]
         for p in problems:
             cls = "noise-" + p.split(":")[0].split(" ")[0]
             if p.startswith("exception"):
                 cls = "noise-" + p.split(":")[0].replace(" ", "-")
             out.setdefault(cls, ("<reader noise>", None, p))
         if db is not None:
-            exp = c15_lib.expected(desc, fmt)
-            obs = c15_lib.observed(db, desc, fmt)
-            for path, a, b in c15_lib.diff(exp, obs):
-                cls = c15_lib.classify(path)
-                out.setdefault(cls, (path, a, b))
-                self.all_diffs.setdefault(cls, []).append((path, a, b))
+            for (bus_name, view), one in zip(views, db):
+                # each bus / cluster must say exactly what the file says for THAT bus
+                exp = c15_lib.expected(view, fmt)
+                obs = c15_lib.observed(one, view, fmt)
+                for path, a, b in c15_lib.diff(exp, obs):
+                    cls = c15_lib.classify(path)
+                    if multi:
+                        cls, path = "multibus-" + cls, "/bus %s%s" % (bus_name, path)
+                    out.setdefault(cls, (path, a, b))
+                    self.all_diffs.setdefault(cls, []).append((path, a, b))
         if want_db:
             return out, db, data
         return out
@@ -98,6 +114,11 @@ class Runner(object):
         """-> (key, minimal lex, minimal enc)"""
         R = RENDER[fmt]
         enc0 = R.ENCODINGS[0]
+        if cls.startswith("multibus-"):
+            # several buses / clusters in one file: one key per field class, whatever element order or white space the failure
+            # happens to need (which bus's triggering a reader meets first depends on them)
+            plain_fails = cls in self.classes(fmt, desc, {}, enc0)
+            return "%s-%s" % (fmt, cls), ({} if plain_fails else dict(lex)), (enc0 if plain_fails else enc)
         if cls in self.classes(fmt, desc, {}, enc0):
             key = "%s-%s" % (fmt, cls)
             return ROOT_CLASS.get(key, key), {}, enc0
@@ -290,6 +311,10 @@ def run(chk):
             if any(len(n) > 32 for n in [e["name"] for e in desc["ecus"]] + [f["name"] for f in desc["frames"]]
                    + [s["name"] or "" for f in desc["frames"] for s in f["signals"]]):
                 feats.add("long-names")
+            if desc.get("buses"):
+                feats.add("multi-bus")
+                if any(f.get("shared") for b in desc["buses"] for f in b["frames"]):
+                    feats.add("frame-shared-between-buses")
             if any(c15_lib.decode_probes(f) for f in desc["frames"]):
                 feats.add("decode-probed")
             if any(s["min"] == 0 or s["max"] == 0 for f in desc["frames"] for s in f["signals"]):
@@ -340,8 +365,9 @@ def run(chk):
                                        description=netdesc.to_jsonable(sdesc), file=data_s.decode(menc.partition("+cm=")[0], "replace")[:6000]),
                                   netdesc.to_jsonable(a), netdesc.to_jsonable(b))
             if len(forms) == 2:
-                fa, fb = c15_lib.metamorphic_form(forms[0][0], fmt), c15_lib.metamorphic_form(forms[1][0], fmt)
-                d = c15_lib.diff(fa, fb)
+                fa = [c15_lib.metamorphic_form(x, fmt) for x in forms[0][0]]
+                fb = [c15_lib.metamorphic_form(x, fmt) for x in forms[1][0]]
+                d = [x for one_a, one_b in zip(fa, fb) for x in c15_lib.diff(one_a, one_b)]
                 chk.count("%s:metamorphic-pairs" % fmt)
                 if d:
                     key = "%s-metamorphic-%s" % (fmt, c15_lib.classify(d[0][0]))
